@@ -13,7 +13,7 @@ Function by function (C++ name → Lean name):
   FwdState::checkRetriable → `checkRetriable`        FwdState::exhaustedTries → `exhaustedTries`
   FwdState::checkRetry → `checkRetry`                FwdState::reforward → `reforward`
   FwdState::retryOrBail → `retryOrBail`              FwdState::useDestinations → `useDestinations`
-  FwdState::connectStart → `connectStart`            FwdState::noteConnection → `noteConnectionOk` / `noteConnectionError`
+  FwdState::connectStart → `connectStart`            FwdState::noteConnection → `noteConnection` / `noteConnectionError`
   FwdState::syncWithServerConn + dispatch → `dispatch`
   FwdState::fail + reactToZeroSizeObject → `fail`    FwdState::complete → `complete`
   FwdState::serverClosed / handleUnregisteredServerEnd → `Ev.serverFailed` (`serverEnd`)
@@ -288,13 +288,14 @@ def serverEnd (c : Cfg) (r : Req) (s : St) (f : Fail) (dr : Bool) : St × List O
     retryOrBail c r { s with phase := .idle }
   | _ => (s, [])
 
-/-- FwdState::complete (called by Client::completeForwarding) -/
+/-- FwdState::complete (called by Client::completeForwarding).  HttpStateData::processReplyBody has pooled the
+connection before (COMPLETE_PERSISTENT_MSG, not pinned); `reforward()` does not read the pool. -/
 def complete (c : Cfg) (r : Req) (s : St) (keep : Bool) : St × List Out :=
   match s.phase with
   | .sent d _ =>
-    -- HttpStateData::processReplyBody pooled the connection first (COMPLETE_PERSISTENT_MSG, not pinned)
+    let again := reforward c r s
     let s := if keep && !s.pinned then { s with pool := d :: s.pool } else s
-    if reforward c r s then
+    if again then
       -- unregister, destinationReceipt = nil, entry->reset() (keeps ENTRY_FWD_HDR_WAIT), useDestinations
       useDestinations c r { s with receipt := none, entryEmpty := true, status := 0, phase := .idle }
     else stop s
